@@ -9,6 +9,7 @@ open Martian.Props.C20
 #print axioms clean_rooted_has_no_dotdot
 #print axioms resolved_under_root
 #print axioms resolved_bytes_under_root
+#print axioms answer_follows_current_file
 #print axioms atoi_within_int64
 #print axioms accepted_range_arithmetic_is_exact
 #print axioms facts_both_modifiers_same_range_loop
